@@ -1422,6 +1422,23 @@ def spec_message_of(verdict):
     return verdict.get('msg', '')
 
 
+def _inject_case(m, r, site, shuffle, base, seed):
+    """the files of one injection, reproducible from (model, rule, site, shuffle, base, seed) -- so that the suite
+    need not keep the mutated clone of every case: -> (files, mutated model or None, replacements or None)"""
+    import random
+    from harness import specgen, inject
+    crng = random.Random(seed)
+    if r.level == 'text':
+        return inject.inject_text(base, r, site, crng), None, None
+    m2 = specgen.clone(m)
+    rep = r.apply(m2, site, crng)
+    return inject.render_with(m2, inject.plain_layout(crng, m2) if shuffle else None, rep), m2, rep
+
+
+VIOLATIONS_BATCH = 6000      # cases compiled and judged at a time (the thorough tier has some 300,000: texts and clones
+#                              of all of them at once are > 10 GB, copied again by every forked pool worker)
+
+
 def suite_violations(ck, n_models=None, per_rule=None, report='C01'):
     """rule x site x model: one injected violation must be refused with InvalidSpec"""
     from harness import specgen, inject
@@ -1431,6 +1448,15 @@ def suite_violations(ck, n_models=None, per_rule=None, report='C01'):
     models = _gen_models(rng, n)
     base_ok = compile_all([[tuple(f) for f in specgen.render(m, None)] for m in models])
     cases, meta = [], []
+    seen = set()
+    first_rule = []
+
+    def flush():
+        verdicts = compile_all(cases)
+        for files, (mi, r, site, shuffle, base, seed), v in zip(cases, meta, verdicts):
+            _judge_violation(ck, models[mi], r, site, shuffle, base, seed, files, v, seen, report)
+        del cases[:], meta[:]
+
     for mi, m in enumerate(models):
         if base_ok[mi]['k'] != 'ok':
             ck.stat('fe.violations.base_model_not_accepted')
@@ -1447,66 +1473,66 @@ def suite_violations(ck, n_models=None, per_rule=None, report='C01'):
                 ck.hist('fe.violations.no_site', r.id)
                 continue
             for site in inject.sample_sites(m, r, sites, k, rng):
+                seed = rng.getrandbits(64)
                 try:
-                    if r.level == 'text':
-                        files = inject.inject_text(base, r, site, rng)
-                        info = {'base': base}
-                    else:
-                        m2 = specgen.clone(m)
-                        rep = r.apply(m2, site, rng)
-                        files = inject.render_with(m2, inject.plain_layout(rng, m2) if shuffle else None, rep)
-                        info = {'model': m2, 'rep': rep}
+                    files, _m2, _rep = _inject_case(m, r, site, shuffle, base, seed)
                 except Exception as e:  # noqa: BLE001
                     ck.stat('fe.violations.injector_error')
                     ck.note('injector %s failed on a model: %s: %s' % (r.id, type(e).__name__, e))
                     continue
                 cases.append([tuple(f) for f in files])
-                meta.append((mi, r, site, shuffle, info))
-    verdicts = compile_all(cases)
-    seen = set()
-    for files, (mi, r, site, shuffle, info), v in zip(cases, meta, verdicts):
-        m = models[mi]
-        ck.case(('violation', r.id, tuple(t for _p, t in files)), nontrivial=True)
-        ck.hist('fe.violations.rule', r.id)
-        ck.hist('fe.violations.outcome', v['k'] if v['k'] != 'crash' else 'crash:' + v['exc'])
-        for c in inject.site_ctx(m, r, site) + (['shuffled'] if shuffle else []) + \
-                (['multi_ns'] if len(m.namespaces) > 1 else []):
-            ck.hist('fe.violations.context', c)
-        if v['k'] == 'spec':
-            continue
-        if v['k'] == 'crash':
-            if report == 'C03':
-                if (v['exc'], v['where']) not in seen:
-                    seen.add((v['exc'], v['where']))
-                    report_escape(ck, v, files, 'violation:' + r.id)
-            else:
-                ck.stat('fe.violations.escapes_left_to_C03')
-                ck.hist('fe.violations.escape_by_rule', '%s:%s@%s' % (r.id, v['exc'], v['where']))
-            continue
-        ck.hist('fe.violations.accepted_by_rule', r.id)
-        if report != 'C01':
-            continue
-        small = [list(f) for f in files]
-        if r.id not in seen:
-            seen.add(r.id)
-            ok = lambda w: w['k'] == 'ok'   # noqa: E731
-            if 'model' in info:
-                keep = _keep_set(m, info['model'])
-                sm = shrink_model(info['model'], info['rep'], keep, ok)
-                cand = inject.render_with(sm, None, info['rep'])
-                if compile_one(cand)['k'] == 'ok':
-                    small = [list(f) for f in cand]
-            else:
-                base_lines = {(fi, l) for fi, (_p, t) in enumerate(info['base']) for l in t.split('\n')}
-                essential = {(fi, l) for fi, (_p, t) in enumerate(files) for l in t.split('\n')} - base_lines
-                small = shrink_text_blocks(files, essential, ok)
-        ck.failing_input('C01: a spec that violates rule %s is accepted (%s)' % (r.id, r.doc),
-                         {'kind': 'accepted', 'rule': r.id},
-                         {'specs': small, 'expect': 'refused', 'rule': r.id, 'rule_doc': r.doc, 'site': repr(site),
-                          'preset': m.profile, 'suite': 'violations'})
+                meta.append((mi, r, site, shuffle, base, seed))
+                if not first_rule:
+                    first_rule.append(r.id)
+        if len(cases) >= VIOLATIONS_BATCH:
+            flush()
+    flush()
     ck.stats['fe.violations.rules_built'] = len(inject.RULES)
     ck.stats['fe.violations.rules_unbuilt'] = sorted(inject.UNBUILT)
-    ck.sample({'suite': 'violations', 'rule': meta[0][1].id if meta else None})
+    ck.sample({'suite': 'violations', 'rule': first_rule[0] if first_rule else None})
+
+
+def _judge_violation(ck, m, r, site, shuffle, base, seed, files, v, seen, report):
+    from harness import inject
+    ck.case(('violation', r.id, tuple(t for _p, t in files)), nontrivial=True)
+    ck.hist('fe.violations.rule', r.id)
+    ck.hist('fe.violations.outcome', v['k'] if v['k'] != 'crash' else 'crash:' + v['exc'])
+    for c in inject.site_ctx(m, r, site) + (['shuffled'] if shuffle else []) + \
+            (['multi_ns'] if len(m.namespaces) > 1 else []):
+        ck.hist('fe.violations.context', c)
+    if v['k'] == 'spec':
+        return
+    if v['k'] == 'crash':
+        if report == 'C03':
+            if (v['exc'], v['where']) not in seen:
+                seen.add((v['exc'], v['where']))
+                report_escape(ck, v, files, 'violation:' + r.id)
+        else:
+            ck.stat('fe.violations.escapes_left_to_C03')
+            ck.hist('fe.violations.escape_by_rule', '%s:%s@%s' % (r.id, v['exc'], v['where']))
+        return
+    ck.hist('fe.violations.accepted_by_rule', r.id)
+    if report != 'C01':
+        return
+    small = [list(f) for f in files]
+    if r.id not in seen:
+        seen.add(r.id)
+        ok = lambda w: w['k'] == 'ok'   # noqa: E731
+        if r.level != 'text':
+            _files, m2, rep = _inject_case(m, r, site, shuffle, base, seed)     # the same injection again
+            keep = _keep_set(m, m2)
+            sm = shrink_model(m2, rep, keep, ok)
+            cand = inject.render_with(sm, None, rep)
+            if compile_one(cand)['k'] == 'ok':
+                small = [list(f) for f in cand]
+        else:
+            base_lines = {(fi, l) for fi, (_p, t) in enumerate(base) for l in t.split('\n')}
+            essential = {(fi, l) for fi, (_p, t) in enumerate(files) for l in t.split('\n')} - base_lines
+            small = shrink_text_blocks(files, essential, ok)
+    ck.failing_input('C01: a spec that violates rule %s is accepted (%s)' % (r.id, r.doc),
+                     {'kind': 'accepted', 'rule': r.id},
+                     {'specs': small, 'expect': 'refused', 'rule': r.id, 'rule_doc': r.doc, 'site': repr(site),
+                      'preset': m.profile, 'suite': 'violations'})
 
 
 RULE = ('C01: compile succeeds iff the spec obeys the language rules. Direct oracle (testing): legal generated models must '
